@@ -558,6 +558,8 @@ def evaluate(case, env):
                     for L2 in range(stn.lineno + 1, stn.end_lineno + 1):
                         if not lines[L2 - 1].strip() or lines[L2 - 1].lstrip().startswith("#"):
                             continue
+                        if any(o is not stn and o.lineno <= L2 <= o.end_lineno for o in ref.body_stmts):
+                            continue  # the line is shared with a further statement (after ';'), which may hold scopes of its own
                         ind2 = len(lines[L2 - 1]) - len(lines[L2 - 1].lstrip())
                         ind1 = len(lines[stn.lineno - 1]) - len(lines[stn.lineno - 1].lstrip())
                         if ind2 < ind1 or "\t" in lines[L2 - 1][:ind2] or "\t" in lines[stn.lineno - 1][:ind1]:
